@@ -238,7 +238,12 @@ func (p *prop[C]) run(t *testing.T, e *env) {
 			if p.o.Crashy {
 				e.writeCase(lastPath, p.o.Name, seed, c, nil)
 			}
+			raceBefore := raceLogSize()
 			v := safeCheck(t, p.check, c)
+			if raceAfter := raceLogSize(); raceAfter > raceBefore {
+				// The race detector wrote a report while this case ran: attribute it to the case.
+				v.Violations = append(v.Violations, Violation{Sig: "data-race", Msg: "the race detector reported a data race while this case ran:\n" + raceLogTail(raceBefore)})
+			}
 			if v.Discard {
 				st.Discarded++
 				return
@@ -468,4 +473,30 @@ func (p *enumProp[C]) replay(t *testing.T, e *env, raw json.RawMessage) []Violat
 	}
 	v := safeCheck(t, p.check, c)
 	return e.triage(nil, v.Violations)
+}
+
+// raceLogSize returns the size of this process's race-detector log (GORACE log_path, set by the driver
+// for -race builds), 0 when there is none.
+func raceLogSize() int64 {
+	prefix := os.Getenv("VERIF_RACELOG")
+	if prefix == "" {
+		return 0
+	}
+	fi, err := os.Stat(fmt.Sprintf("%s.%d", prefix, os.Getpid()))
+	if err != nil {
+		return 0
+	}
+	return fi.Size()
+}
+
+func raceLogTail(from int64) string {
+	b, err := os.ReadFile(fmt.Sprintf("%s.%d", os.Getenv("VERIF_RACELOG"), os.Getpid()))
+	if err != nil || from >= int64(len(b)) {
+		return ""
+	}
+	b = b[from:]
+	if len(b) > 3500 {
+		b = b[:3500]
+	}
+	return string(b)
 }
